@@ -552,7 +552,7 @@ def gen_domain_cases(ctx) -> List[Case]:
         pairs = [p for i, p in enumerate(pairs) if i % 2 == 0]
     for i, (k1, k2) in enumerate(pairs):
         for j, d in enumerate(DIRS):
-            if ctx.tier == "quick" and (i + j) % 2:
+            if ctx.tier == "quick" and (i + j) % 3:
                 continue
             pfx, F = PREFIXES[(i + j) % len(PREFIXES)]
             pg = PROBE_PROGS[(i + j) % len(PROBE_PROGS)]
@@ -700,7 +700,10 @@ def report_ops_violation(ctx, seen_keys, suffix: str, pfx, F, ops, hs, bad) -> N
     kind = classify_ops_failure(ops, bad)
     # a failure that needs two stores is its own finding (state kept outside the store and keyed by names only); its
     # replay is self-contained, while a one-store case can fail through what EARLIER cases of this process left behind
-    two = len({store_of(h) for h in hs}) > 1 and judge_domain_case(ctx, pfx, F, ops, [h % 2 for h in hs]) is None
+    sts = sorted({store_of(h) for h in hs})
+    two = len(sts) > 1 and all(
+        judge_domain_case(ctx, pfx, F, [o for o, h in zip(ops, hs) if store_of(h) == st], [h for h in hs if store_of(h) == st]) is None
+        for st in sts)                      # every store's own history is fine in isolation: only the combination fails
     key = kind + (":two-stores-same-names" if two else "") + suffix
     if key in seen_keys:
         return
@@ -810,14 +813,15 @@ def corr_backends(ctx, cases: List[Case], impl_obs) -> None:
     # which requests each operation issued, and how many times (with_s3_retry around a consistent store); for an Open
     # on the raw reader also every ranged GET (first, last); through the BufferedReader the ranged GETs depend on
     # CPython's buffering and are judged by the oracle only (in range of the object)
+    tsubs = subs if ctx.tier != "quick" else [x for n_, x in enumerate(subs) if n_ % 5 < 3]
     exprs = []
-    for ci, idxs in subs:
+    for ci, idxs in tsubs:
         pfx, F, ops, _hs = cases[ci]
         exprs.append(f"trace_case 2 {cstr(pfx)} {foreign_coq(F)} [" + "; ".join(op_coq(ops[i], "kk") for i in idxs) + "]")
     got = ceval(exprs, chunk=120)
     bad_tr = []
     nreq = 0
-    for (ci, idxs), g in zip(subs, got):
+    for (ci, idxs), g in zip(tsubs, got):
         pfx, F, ops, hs = cases[ci]
         impl_tr = [[tuple(r) for r in impl_obs[ci][2][i]] for i in idxs]
         model_tr = [[model_req(r) for r in tr] for tr in g]
@@ -830,7 +834,7 @@ def corr_backends(ctx, cases: List[Case], impl_obs) -> None:
         if i is not None:
             bad_tr.append({"prefix": pfx, "ops": ops_json([ops[x] for x in idxs]), "handles": [hs[x] for x in idxs], "index": i, "impl": impl_tr[i],
                            "model": model_tr[i] if i < len(model_tr) else None})
-    ctx.correspondence("backend-s3-requests", len(subs), bad_tr)
+    ctx.correspondence("backend-s3-requests", len(tsubs), bad_tr)
     ctx.stats["s3_requests_compared"] = nreq
     if cases:
         ctx.sample({"backend_case": {"prefix": cases[0][0], "ops": ops_json(cases[0][2]), "handles": cases[0][3],
@@ -881,7 +885,7 @@ def corr_raw(ctx) -> None:
                 examples.append({"ops": ops_json(ops[:j + 1]), "local": list(map(str, impl[j])), "s3": list(map(str, s3o[j]))})
     ctx.correspondence("backend-local-raw-strings", len(lcases), bad)
     ctx.stats["contract_differences_outside_canonical_domain"] = {"cases": len(lcases), "differing": differ, "examples": examples,
-        "note": "non-prefix-free keys / directory-like paths: outside the property's 'exact keys' wording, reported not judged"}
+        "note": "WRITTEN keys that are directories of other written keys, empty / '.'-like segments, paths spelled with a trailing '/': outside the canonical domain, counted not judged"}
 
 
 # ======================================================================================== generated kernels
@@ -1519,7 +1523,7 @@ def oracle_s3_faults(ctx) -> None:
     later pages of a listing, on a reader's ranged GETs and on the last attempt the retry loop makes), at most
     max_retries per operation, must not change any result nor the store."""
     rng = ctx.rng
-    n = 150 if ctx.tier == "quick" else 1500
+    n = 600 if ctx.tier == "quick" else 4000
     nbad = 0
     seen: set = set()
     # first the smallest histories: one operation on a key that holds nothing / something, one fault at each request index
